@@ -30,6 +30,7 @@ import (
 
 	"github.com/rqlite/rqlite/v10/command/proto"
 	rdb "github.com/rqlite/rqlite/v10/db"
+	"github.com/rqlite/rqlite/v10/internal/rarchive/flate"
 )
 
 // ---- cluster double (same contract as the package's mockCluster; optional loopback) ----
@@ -129,6 +130,19 @@ type c25Endpoint struct {
 }
 
 func c25RowID(k uint64, j, i int) int64 { return int64(k)*1000000 + int64(j)*1000 + int64(i) }
+
+// c25Pad > 0: every row event of an entry whose index is in c25PadIdx carries an "after" image
+// with a text column of that many bytes (a wide row), so that one event group, and the FIFO
+// item holding it, is many MiB of JSON.
+var (
+	c25Pad    int
+	c25PadIdx = map[uint64]bool{}
+)
+
+func c25PadText(id int64, n int) string {
+	chunk := fmt.Sprintf("%016x", uint64(id)*0x9E3779B97F4A7C15)
+	return strings.Repeat(chunk, n/len(chunk)+1)[:n]
+}
 
 func c25NewEndpoint() *c25Endpoint {
 	e := &c25Endpoint{}
@@ -327,7 +341,14 @@ func (n *c25Node) feed(e c25Entry) {
 	n.streamer.Reset(e.idx)
 	for j, rows := range e.stmts {
 		for i := 0; i < rows; i++ {
-			n.streamer.PreupdateHook(&proto.CDCEvent{Op: proto.CDCEvent_INSERT, Table: "t", NewRowId: c25RowID(e.idx, j, i)})
+			ev := &proto.CDCEvent{Op: proto.CDCEvent_INSERT, Table: "t", NewRowId: c25RowID(e.idx, j, i)}
+			if c25Pad > 0 && c25PadIdx[e.idx] {
+				ev.NewRow = &proto.CDCRow{Values: []*proto.CDCValue{
+					{Value: &proto.CDCValue_I{I: ev.NewRowId}},
+					{Value: &proto.CDCValue_S{S: c25PadText(ev.NewRowId, c25Pad)}},
+				}}
+			}
+			n.streamer.PreupdateHook(ev)
 		}
 		if !e.tx {
 			before := n.streamer.Len()
@@ -524,6 +545,11 @@ func (n *c25Node) setLeader(b bool) bool {
 	if b == n.leader {
 		return true
 	}
+	if b {
+		// a new tenure starts: number it BEFORE the service learns about it, the leader loop
+		// starts POSTing as soon as it does
+		n.tenure++
+	}
 	n.svc.leaderObCh <- b
 	deadline := time.Now().Add(5 * time.Second)
 	for n.svc.IsLeader() != b || len(n.svc.leaderObCh) > 0 {
@@ -533,9 +559,6 @@ func (n *c25Node) setLeader(b bool) bool {
 		time.Sleep(50 * time.Microsecond)
 	}
 	n.leader = b
-	if b {
-		n.tenure++
-	}
 	return n.barrier()
 }
 
@@ -640,6 +663,7 @@ func (n *c25Node) applyOnly(t *testing.T, op string) bool {
 			return false
 		}
 		n.svc.Stop()
+		n.tenure++ // a restart ends the tenure (the restarted service starts as follower)
 		n.start(t)
 		for _, e := range n.log {
 			if e.idx > n.snap {
@@ -1154,6 +1178,67 @@ func TestVerifC25(t *testing.T) {
 		if i == len(directed) || i == 0 {
 			rep.Sample(map[string]interface{}{"ops": vfTrunc(h.ops), "impl": vfTrunc(h.out)})
 		}
+	}
+	// ---- large items ------------------------------------------------------------------------
+	// (a) flate round trip, the law the model assumes of the FIFO's stored form: for inputs of
+	// 9-16 MiB (and small ones) Decompress(Compress(x)) = x.
+	for i, sz := range []int{0, 1, 4096, 9 << 20, 12<<20 + 12345, 16 << 20} {
+		x := make([]byte, sz)
+		rr := vfNewRng(uint64(2500 + i))
+		for j := 0; j < sz; j += 8 {
+			v := rr.Intn(1 << 30)
+			if j%4096 < 2048 { // half compressible, half not
+				v = j / 4096
+			}
+			for b := 0; b < 8 && j+b < sz; b++ {
+				x[j+b] = byte(v >> (8 * (b % 4)))
+			}
+		}
+		rep.Count("flate-round-trips")
+		c, err := flate.Compress(x)
+		if err != nil {
+			rep.Fail("flate:compress-fails", fmt.Sprintf("Compress of %d bytes: %v", sz, err), map[string]interface{}{"size": sz})
+			continue
+		}
+		y, err := flate.Decompress(c)
+		if err != nil || string(y) != string(x) {
+			rep.Fail("flate:decompress-does-not-invert-compress",
+				fmt.Sprintf("Decompress(Compress(x)) for len(x)=%d (compressed %d): err=%v, got %d bytes; the FIFO stores Compress(json(batch)) and the leader loop DROPS an item it cannot decompress", sz, len(c), err, len(y)),
+				map[string]interface{}{"size": sz, "compressed": len(c)})
+		}
+	}
+	// (b) one transaction touching many wide rows = one event group of more than 8 MiB of JSON
+	// = one big FIFO item, then a small write, through the real service and leader loop; same
+	// model comparison and lost-change oracle as every other history.
+	{
+		rows, pad := 700, 16<<10 // ~11 MiB of JSON
+		if vfScale(0, 1) == 1 {
+			rows, pad = 900, 40<<10 // ~36 MiB
+		}
+		c25Pad = pad
+		for _, v := range []struct {
+			b   int
+			ops []string
+		}{
+			{1, []string{"leader 1", fmt.Sprintf("entry 5 1 %d", rows), "entry 6 0 1", "timer"}},
+			// the big group shares its batch (and FIFO item) with a small one; no outage here: a
+			// retry storm of 11 MiB POSTs has no quiescent point to observe
+			{2, []string{fmt.Sprintf("entry 5 1 %d", rows), "entry 6 0 1", "leader 1", "entry 7 0 1", "timer", "sync", "restart", "leader 1"}},
+		} {
+			c25PadIdx = map[uint64]bool{5: true}
+			h := c25RunHistory(t, root, 900000+v.b, v.b, time.Hour, v.ops, 400, 0)
+			c25PadIdx = map[uint64]bool{}
+			rep.Count("histories-with-a-large-fifo-item")
+			if !h.ok {
+				rep.Disagree(vfDisagreement{Component: "cdcpipe", Ops: vfTrunc(h.ops), Impl: vfTrunc(h.out), At: len(h.out) - 1, Note: "large item: the real service never reached a quiescent point"})
+				continue
+			}
+			c25Judge(rep, h, "large-item:")
+			segOps = append(segOps, h.ops)
+			segImpl = append(segImpl, h.out)
+			rep.Case(strings.Join(h.ops, ";")+fmt.Sprintf(";pad=%d", pad), len(h.posts) > 0)
+		}
+		c25Pad = 0
 	}
 	rep.vfCompareSegments("cdcpipe", segOps, segImpl)
 
